@@ -100,6 +100,7 @@ type rec struct {
 	Grammar string `json:"grammar"`
 	ExprB64 string `json:"expr_quoted"` // strconv.Quote form
 	Faults  []int  `json:"faults,omitempty"`
+	Rerun   bool   `json:"rerun_of_one_context,omitempty"` // history: the context ran once without faults before
 }
 
 func build(grammar, src string) (m *xpath.Machine, err error) {
@@ -132,7 +133,7 @@ func leaked(grammar, src, what string) []engine.Violation {
 
 func viol(key, grammar, src, detail string, faults []int) engine.Violation {
 	return engine.Violation{Key: key, Witness: grammar + ":" + strconv.Quote(src), Detail: detail, Harness: "c05",
-		Replay: engine.JSON(rec{grammar, strconv.Quote(src), faults})}
+		Replay: engine.JSON(rec{Grammar: grammar, ExprB64: strconv.Quote(src), Faults: faults})}
 }
 
 // construct checks part A for one input and returns the machine (if any).
@@ -278,6 +279,77 @@ func runOnDebug(m *xpath.Machine, t *mock.Tree, faults []int, debug bool) (o run
 }
 
 var idTree = mock.NewTree()
+
+// checkRerun is the history "one context, run twice": the first Run sees a tree that answers every
+// call, the second Run of the same context object sees the tree fail at the given calls. The property
+// speaks of running any machine on any context - a context that ran before is one: the second Run may
+// not panic, yields a value or an error, and carries the error the tree reported during it.
+func checkRerun(grammar, src string, m *xpath.Machine, faults []int) (vs []engine.Violation) {
+	t := idTree
+	mk := func(key, detail string) {
+		v := viol("rerun:"+key, grammar, src, detail, faults)
+		v.Replay = engine.JSON(rec{Grammar: grammar, ExprB64: strconv.Quote(src), Faults: faults, Rerun: true})
+		vs = append(vs, v)
+	}
+	t.Reset()
+	var p any
+	var res *xpath.Result
+	func() {
+		defer func() { p = recover() }()
+		verifrt.SetHorizon(400000)
+		ctx := xpath.NewCtxFromCurrent(gocontext.Background(), m, t.At(mock.Elem{Name: "top"}, mock.Elem{Name: "ctx"}))
+		ctx.Run()
+		t.Reset()
+		t.FailAt = map[int]bool{}
+		for _, f := range faults {
+			t.FailAt[f] = true
+		}
+		res = ctx.Run()
+	}()
+	hit := verifrt.HorizonHit
+	verifrt.SetHorizon(0)
+	if isSelfDeadlock(p) {
+		verifrt.ReleaseLeaked()
+		mk("run-blocks-for-ever", fmt.Sprint(p))
+		return
+	}
+	if lv := leaked(grammar, src, "second run of one context"); lv != nil {
+		return lv
+	}
+	switch {
+	case hit:
+		mk("run-nonterminating", "step horizon exceeded")
+		return
+	case p != nil:
+		mk("run-panic:"+panicClass(p), fmt.Sprint("panic escaped the second Run: ", p))
+		return
+	case res == nil:
+		mk("run-panic:nil-result", "the second Run returned nil")
+		return
+	}
+	errText := ""
+	if e := res.GetError(); e != nil {
+		errText = e.Error()
+	}
+	if errText == "" {
+		_, e1 := res.GetNumResult()
+		_, e2 := res.GetLiteralResult()
+		_, e3 := res.GetBoolResult()
+		if e1 != nil || e2 != nil || e3 != nil {
+			mk("neither-value-nor-error", fmt.Sprint("GetError()==nil but an accessor fails: ", e1, e2, e3))
+		}
+	}
+	if len(t.Faults) > 0 {
+		first := t.Faults[0].Error()
+		switch {
+		case errText == "":
+			mk("data-tree-error-lost", fmt.Sprintf("during the second Run the callback failed with %s but the result reports no error (calls %v)", first, t.CallStrings()))
+		case !strings.Contains(errText, first):
+			mk("data-tree-error-replaced:"+panicClass(errText), fmt.Sprintf("during the second Run the callback failed with %s but the result reports %q", first, errText))
+		}
+	}
+	return
+}
 
 // checkRun is part B for one machine and (with faults) part C.
 func checkRun(grammar, src string, m *xpath.Machine, faults []int) (vs []engine.Violation, outcome string, calls int) {
@@ -498,6 +570,12 @@ func run(c *engine.Ctx) {
 					c.Nontrivial()
 					vs, outcome, _ := checkRun(g, src, m, f)
 					c.Outcome("C:" + outcome)
+					if len(f) == 1 || !c.Quick() {
+						c.Add("states", 1)
+						c.Add("transitions", 2)
+						c.Add("rerun_histories", 1)
+						vs = append(vs, checkRerun(g, src, m, f)...)
+					}
 					for _, v := range vs {
 						c.Report(v)
 					}
@@ -520,6 +598,9 @@ func replay(c *engine.Ctx, sub string, raw json.RawMessage) []engine.Violation {
 	}
 	verifrt.SetSequential(true)
 	m, vs, _ := construct(r.Grammar, src)
+	if m != nil && r.Rerun {
+		return append(vs, checkRerun(r.Grammar, src, m, r.Faults)...)
+	}
 	if m != nil {
 		v2, _, _ := checkRun(r.Grammar, src, m, r.Faults)
 		vs = append(vs, v2...)
